@@ -16,7 +16,7 @@ def run(tier, seed):
     ck.proof = lib.proof_step('props/C05.v', matchcheck.MATCH_CONE)
     ck.broken += ck.proof['broken']
     if not ck.proof['driver_ok']:
-        return ck.finish(rule='driver unavailable')
+        ck.notes['driver'] = 'unavailable: model-side runs skipped, searching with the implementation-side oracles only'
     import soupsieve as sv
     n = 100 if tier == 'quick' else 2500
     custom = {':--cust': 'p, div > span', ':--c2': ':is(a, :--cust):not(.x)'}
